@@ -260,7 +260,17 @@ func (db *Database) resolveDirty() error {
 				return err
 			}
 			if !locked {
-				return ErrHotJournal
+				// The owner of the journal may have finished between our look
+				// at the journal and the lock probe. Like SQLite we look
+				// again: only a journal which is still there is the journal
+				// of a crashed transaction.
+				hot, err := validJournal(db.journal)
+				if err != nil {
+					return err
+				}
+				if hot {
+					return ErrHotJournal
+				}
 			}
 		}
 	}
